@@ -13,14 +13,18 @@ def build_workspace(mode="int"):
 
     mode "int": integer coordinates, points with last coordinate 1 (the fast paths of normalisation);
     mode "float": the same objects given by float64 representatives with last coordinate 2 (points) resp. scaled by 1/2
-    (hyperplanes), so that every normalising code path has real work to do and no dtype conversion makes a protective copy."""
+    (hyperplanes), so that every normalising code path has real work to do and no dtype conversion makes a protective copy;
+    mode "complex": the same real values stored as complex128 (the dtype of the lines and points the library itself returns
+    from angle_bisectors, mirror, perpendicular, intersect)."""
     import geometer as _g
 
+    dt = complex if mode == "complex" else float
+
     def _rescale(o, f):
-        if np.iscomplexobj(o.array):
+        if np.iscomplexobj(o.array) and mode != "complex":
             return o
         r = o.copy()
-        r.array = np.asarray(o.array, dtype=float) * f
+        r.array = np.asarray(o.array, dtype=dt) * f
         return r
 
     class _Scaled:
@@ -37,7 +41,7 @@ def build_workspace(mode="int"):
         PlaneCollection = staticmethod(lambda *a, **k: _rescale(_g.PlaneCollection(*a, **k), 0.5))
 
     g = _g if mode == "int" else _Scaled()
-    arr = (lambda x: np.array(x)) if mode == "int" else (lambda x: np.array(x, dtype=float) * 2.0)
+    arr = (lambda x: np.array(x)) if mode == "int" else (lambda x: np.array(x, dtype=dt) * 2.0)
 
     w = {}
     # --- plane
